@@ -192,8 +192,237 @@ def adv_p_vc(with_lens=False):
                            "y_prev_lens omitted (all prefixes have full length S); finite input scores; float arithmetic as real arithmetic"])
 
 
+def search_loop_p_vc():
+    """P rung: the loop of BeamSearch.forward with the end-of-sequence symbol unset, for a SYMBOLIC batch size, beam width, vocabulary and
+    step limit, an ARBITRARY language model and `beam_search_advance` under its contract (C04.P.advance_step, lengths given):
+    callee contracts
+      lm.update_input / lm.calc_idx_log_probs / lm.extract_by_src: opaque state tokens; the model's scores for step t are an uninterpreted
+        function of (t, flat slot, token); extract_by_src(state, index) is recorded with its index tensor;
+      log_softmax: uninterpreted element function; beam_search_advance: the postcondition proved in C04.P.advance_step.
+    Ghost genealogy, recorded step by step: source(t, n, k), token(t, n, k) and step_score(t, n, s, v) = the normalised score the model
+    gave at step t to token v after the path in slot s. Defined from it by recursion on t:
+        alive(t+1, n, k) = k below the number of candidates and alive(t, n, source);   chained(t+1, n, k) = chained(t, n, source) + step_score(t, n, source, token)
+        path(t+1, n, k, r) = token if r = t else path(t, n, source, r);   differ(t+1, n, k, k') = differ(t, n, source, source') if the sources differ else t
+    Loop invariant (k < current width):  the slot's score is -inf exactly when it is not alive; an alive slot has length t, score
+    chained(t) and rows path(t); two alive slots differ at row differ(t) < t; lengths within the rows of the path tensor.
+    Per iteration it is also proved that the model is asked about exactly the (clamped) paths with the current state and step, and that the
+    next state is the model's new state re-indexed by the global source index n * width' + source - the state follows the paths.
+    After the loop: the returned triple is the beam padded to the width (only when no step was taken)."""
+    import pydrobert.torch._decoding as D
+    import pydrobert.torch._lm as LMM
+    from vf.pyvc import symtensor as stn
+    from vf.pyvc.interp import LoopSpec, PathAbort
+
+    z = ip.to_z3
+    N, W, V, MI, PADV, N0, K0, K1, R0 = z3.Ints("N width V max_iters pad_value n0 k0 k1 r0")
+    Iz, Rz, Bz = z3.IntSort(), z3.RealSort(), z3.BoolSort()
+    fn = lambda nm, *so: z3.Function(nm, *so)
+    SRC, TOK, LSM = fn("source", Iz, Iz, Iz, Iz), fn("token", Iz, Iz, Iz, Iz), fn("step_score", Iz, Iz, Iz, Iz, Rz)
+    ALIVE, CH, PATH, DIFF = fn("alive", Iz, Iz, Iz, Bz), fn("chained", Iz, Iz, Iz, Rz), fn("path", Iz, Iz, Iz, Iz, Iz), fn("differ", Iz, Iz, Iz, Iz, Iz)
+    pw_of = lambda t: z3.If(t == 0, 1, W)
+    kk_of = lambda t: z3.If(W <= pw_of(t) * V, W, pw_of(t) * V)
+    t_, n_, k_, k2_, r_ = z3.Ints("t_q n_q k_q k2_q r_q")
+    base_def = lambda n: z3.And(ALIVE(0, n, 0), CH(0, n, 0) == 0)
+    rec_alive = lambda t, n, k: z3.Implies(t >= 0, ALIVE(t + 1, n, k) == z3.And(0 <= k, k < kk_of(t), ALIVE(t, n, SRC(t, n, k))))
+    rec_ch = lambda t, n, k: z3.Implies(t >= 0, CH(t + 1, n, k) == CH(t, n, SRC(t, n, k)) + LSM(t, n, SRC(t, n, k), TOK(t, n, k)))
+    rec_path = lambda t, n, k, r: z3.Implies(t >= 0, PATH(t + 1, n, k, r) == z3.If(r == t, TOK(t, n, k), PATH(t, n, SRC(t, n, k), r)))
+    rec_diff = lambda t, n, k, k2: z3.Implies(t >= 0, DIFF(t + 1, n, k, k2) == z3.If(SRC(t, n, k) != SRC(t, n, k2), DIFF(t, n, SRC(t, n, k), SRC(t, n, k2)), t))
+    Bq = lambda c: z3.BoolVal(c) if isinstance(c, bool) else c
+
+    class Tok:  # an opaque model state
+        def __init__(self, what, **kw):
+            self.what, self.kw = what, kw
+
+    def inv_parts(st, t):
+        """the invariant after t steps at the skolem element n0, slots k0 / k1, row r0"""
+        y, lens, lp, pw = st["y_prev"], st["y_prev_lens"], st["log_probs_prev"], st["prev_width"]
+        rows = z(y.shape[0])
+        nf = lambda k: Bq(ct.ng_split(lp.elem(N0, k))[0])
+        val = lambda k: z(ct.ng_split(lp.elem(N0, k))[1])
+        slot = lambda k: z3.And(0 <= k, k < pw_of(t))
+        return [("width_and_shapes", z3.And(z(pw) == pw_of(t), z(y.shape[1]) == N, z(y.shape[2]) == pw_of(t), z(lens.shape[0]) == N, z(lens.shape[1]) == pw_of(t), z(lp.shape[0]) == N, z(lp.shape[1]) == pw_of(t), rows >= 0)),
+                ("lengths_within_the_rows", z3.Implies(slot(K0), z3.And(0 <= z(lens.elem(N0, K0)), z(lens.elem(N0, K0)) <= rows))),
+                ("score_is_minus_inf_exactly_when_not_alive", z3.Implies(slot(K0), nf(K0) == z3.Not(ALIVE(t, N0, K0)))),
+                ("alive_slot_has_length_t", z3.Implies(z3.And(slot(K0), ALIVE(t, N0, K0)), z(lens.elem(N0, K0)) == t)),
+                ("alive_slot_has_the_chained_score", z3.Implies(z3.And(slot(K0), ALIVE(t, N0, K0)), val(K0) == CH(t, N0, K0))),
+                ("alive_slot_holds_its_path", z3.Implies(z3.And(slot(K0), ALIVE(t, N0, K0), 0 <= R0, R0 < t), z3.And(z(y.elem(R0, N0, K0)) == PATH(t, N0, K0, R0), 0 <= PATH(t, N0, K0, R0), PATH(t, N0, K0, R0) < V))),
+                ("alive_slots_hold_different_paths", z3.Implies(z3.And(slot(K0), slot(K1), K0 != K1, ALIVE(t, N0, K0), ALIVE(t, N0, K1)),
+                                                              z3.And(0 <= DIFF(t, N0, K0, K1), DIFF(t, N0, K0, K1) < t, PATH(t, N0, K0, DIFF(t, N0, K0, K1)) != PATH(t, N0, K1, DIFF(t, N0, K0, K1)))))]
+
+    def inv_all(st, t):
+        """the same, quantified over element, slots and row (as a hypothesis)"""
+        sub = [(N0, n_), (K0, k_), (K1, k2_), (R0, r_)]
+        return z3.ForAll([n_, k_, k2_, r_], z3.Implies(z3.And(0 <= n_, n_ < N), z3.substitute(z3.And([g for _, g in inv_parts(st, t)]), *sub)))
+
+    def inv_inst(st, t, n, k, k2, r):
+        return z3.Implies(z3.And(0 <= n, n < N), z3.substitute(z3.And([g for _, g in inv_parts(st, t)]), (N0, n), (K0, k), (K1, k2), (R0, r)))
+
+    def thunk(I):
+        I.stubs.update(stn.stubs())
+        names = ("y_prev", "y_prev_lens", "log_probs_prev", "prev_width", "prev")
+        g = I.ex.ghost
+        g["calls"] = []
+
+        def update_input(I2, a, kw):
+            return Tok("initial")
+
+        def calc(I2, a, kw):
+            hist, prev, t = a[1], a[2], a[3]
+            cur = g.get("cur")
+            if cur is None:
+                raise ip.Unsupported("the model is queried outside the search loop")
+            tt, pw = cur["t"], cur["pw"]
+            I2.ex.oblige("structure.model_query.once_per_step", z3.BoolVal("lmo" not in cur))
+            I2.ex.oblige("model_is_asked_with_the_current_state_and_step", z3.And(z3.BoolVal(prev is cur["st"]["prev"] and hasattr(t, "elem") and len(t.shape) == 0), z(t.elem()) == tt))
+            yq = cur["st"]["y_prev"]
+            clampv = lambda x: z3.If(x < 0, 0, z3.If(x > V - 1, V - 1, x))
+            I2.ex.oblige("model_is_asked_about_the_clamped_paths", z3.And(z3.BoolVal(hasattr(hist, "elem") and len(hist.shape) == 2), z(hist.shape[0]) == z(yq.shape[0]), z(hist.shape[1]) == N * pw,
+                                                                          z3.Implies(z3.And(0 <= R0, R0 < z(yq.shape[0]), 0 <= N0, N0 < N, 0 <= K0, K0 < pw), z(hist.elem(R0, N0 * pw + K0)) == clampv(z(yq.elem(R0, N0, K0))))))
+            LMO = stn._fresh("model_score", Iz, Iz, Rz)
+            cur["lmo"] = LMO
+            cur["in_next"] = Tok("after_step")
+            return (stn.ST((N * pw, V), lambda i, v: LMO(z(i), z(v)), "float"), cur["in_next"])
+
+        def extract(I2, a, kw):
+            cur = g.get("cur")
+            if cur is None or "adv" not in cur:
+                raise ip.Unsupported("extract_by_src outside a step of the search loop")
+            state, idx = a[1], a[2]
+            adv, pw = cur["adv"], cur["pw"]
+            I2.ex.oblige("next_state_is_the_new_model_state_reindexed_by_the_global_source", z3.And(z3.BoolVal(state is cur["in_next"] and hasattr(idx, "elem") and len(idx.shape) == 1), z(idx.shape[0]) == N * W,
+                                                                                                   z3.Implies(z3.And(0 <= N0, N0 < N, 0 <= K0, K0 < W), z(idx.elem(N0 * W + K0)) == N0 * pw + adv["S"](N0, K0))))
+            return Tok("extracted")
+
+        def advance(I2, a, kw):
+            """callee contract = the postcondition of C04.P.advance_step (lengths given, scores possibly -inf)"""
+            cur = g.get("cur")
+            if cur is None or "lmo" not in cur or kw:
+                raise ip.Unsupported("beam_search_advance outside a step of the search loop")
+            lt, width, lp, y, lens = a
+            st, tt, pw = cur["st"], cur["t"], cur["pw"]
+            LS = [x for x in I2.ex.ghost.get("log_softmaxes", [])]
+            I2.ex.oblige("structure.one_log_softmax_per_step", z3.BoolVal(len(LS) == 1 and LS[-1]["dim"] == 2))
+            lsf = LS[-1]["LS"]
+            cur["ls"] = lsf
+            I2.ex.oblige("advance_gets_the_normalised_model_scores_per_slot", z3.And(z3.BoolVal(hasattr(lt, "elem") and len(lt.shape) == 3), z(lt.shape[0]) == N, z(lt.shape[1]) == pw, z(lt.shape[2]) == V,
+                                                                                     z3.Implies(z3.And(0 <= N0, N0 < N, 0 <= K0, K0 < pw, 0 <= R0, R0 < V), z(lt.elem(N0, K0, R0)) == lsf(N0, K0, R0)),
+                                                                                     z3.Implies(z3.And(0 <= N0, N0 < N, 0 <= K0, K0 < pw, 0 <= R0, R0 < V), z(LS[-1]["of"].elem(N0, K0, R0)) == cur["lmo"](N0 * pw + K0, R0))))
+            clampv = lambda x: z3.If(x < 0, 0, z3.If(x > V - 1, V - 1, x))
+            I2.ex.oblige("advance_gets_the_width_the_scores_the_paths_and_the_lengths", z3.And(z(width) == W, z3.BoolVal(lp is st["log_probs_prev"] and lens is st["y_prev_lens"] and hasattr(y, "elem") and len(y.shape) == 3),
+                                                                                               z(y.shape[0]) == z(st["y_prev"].shape[0]), z3.Implies(z3.And(0 <= R0, R0 < z(y.shape[0]), 0 <= N0, N0 < N, 0 <= K0, K0 < pw),
+                                                                                                                                                       z(y.elem(R0, N0, K0)) == clampv(z(st["y_prev"].elem(R0, N0, K0))))))
+            rows = z(st["y_prev"].shape[0])
+            S_, W_, NF_, VAL_, LEN_, Y_ = (stn._fresh(nm, *so) for nm, so in (("slot_source", (Iz, Iz, Iz)), ("slot_token", (Iz, Iz, Iz)), ("slot_score_is_minus_inf", (Iz, Iz, Bz)), ("slot_score", (Iz, Iz, Rz)),
+                                                                                 ("slot_length", (Iz, Iz, Iz)), ("slot_path", (Iz, Iz, Iz, Iz))))
+            ROWS2 = I2.ex.fresh("int", "rows_after")
+            KK = z3.If(W <= pw * V, W, pw * V)
+            lpn = lambda n, k: ct.ng_split(lp.elem(n, k))
+            real = lambda n, k: z3.And(0 <= n, n < N, 0 <= k, k < KK)
+            post_slot = lambda n, k: z3.Implies(real(n, k), z3.And(0 <= S_(n, k), S_(n, k) < pw, 0 <= W_(n, k), W_(n, k) < V, NF_(n, k) == Bq(lpn(n, S_(n, k))[0]),
+                                                                    z3.Implies(z3.Not(Bq(lpn(n, S_(n, k))[0])), VAL_(n, k) == z(lpn(n, S_(n, k))[1]) + lsf(n, S_(n, k), W_(n, k))),
+                                                                    LEN_(n, k) == z(lens.elem(n, S_(n, k))) + 1, z(lens.elem(n, S_(n, k))) < ROWS2))
+            post_cell = lambda n, k, r: z3.Implies(z3.And(real(n, k), 0 <= r, r <= z(lens.elem(n, S_(n, k)))), Y_(r, n, k) == z3.If(r == z(lens.elem(n, S_(n, k))), W_(n, k), z(y.elem(r, n, S_(n, k)))))
+            post_distinct = lambda n, k, k2: z3.Implies(z3.And(real(n, k), real(n, k2), k != k2), z3.Or(S_(n, k) != S_(n, k2), W_(n, k) != W_(n, k2)))
+            post_filler = lambda n, k: z3.Implies(z3.And(0 <= n, n < N, KK <= k, k < W), z3.And(NF_(n, k), LEN_(n, k) == 0))
+            I2.ex.assume(z3.Or(ROWS2 == rows, ROWS2 == rows + 1))
+            a1, a2, a3, a4 = z3.Ints("a1_q a2_q a3_q a4_q")
+            I2.ex.assume(z3.ForAll([a1, a2], post_slot(a1, a2)))
+            I2.ex.assume(z3.ForAll([a1, a2, a3], post_cell(a1, a2, a3)))
+            I2.ex.assume(z3.ForAll([a1, a2, a3], post_distinct(a1, a2, a3)))
+            I2.ex.assume(z3.ForAll([a1, a2], post_filler(a1, a2)))
+            cur["adv"] = {"S": S_, "W": W_, "slot": post_slot, "cell": post_cell, "distinct": post_distinct, "filler": post_filler, "KK": KK}
+            return (stn.ST((ROWS2, N, W), lambda r, n, k: Y_(z(r), z(n), z(k)), "long"), stn.ST((N, W), lambda n, k: LEN_(z(n), z(k)), "long"),
+                    stn.ST((N, W), lambda n, k: ct.NegGuarded(NF_(z(n), z(k)), VAL_(z(n), z(k))), "float"), stn.ST((N, W), lambda n, k: S_(z(n), z(k)), "long"))
+
+        I.contracts.update({"SequentialLanguageModel.update_input": update_input, "SequentialLanguageModel.calc_idx_log_probs": calc,
+                            "ExtractableSequentialLanguageModel.extract_by_src": extract, "pydrobert.torch._decoding.beam_search_advance": advance})
+
+        class Steps(LoopSpec):
+            def run(self, I2, s, f):
+                it = I.eval(s.iter, f)
+                I.ex.oblige("structure.loop.range", z3.And(z(it.lo) == 0, z(it.hi) == MI, z(it.step) == 1))
+                st0 = {nm: ip.local(f, nm) for nm in names}
+                I.ex.instance(base_def(N0))
+                for lbl, gl in inv_parts(st0, z3.IntVal(0)):
+                    I.ex.oblige("search.init." + lbl, gl)
+                t = I.ex.fresh("int", "step")
+                PW, ROWS = I.ex.fresh("int", "width_now"), I.ex.fresh("int", "rows_now")
+                fr = lambda nm, *so: stn._fresh(nm, *so)
+                Yh, Lh, NFh, Vh = fr("y_now", Iz, Iz, Iz, Iz), fr("len_now", Iz, Iz, Iz), fr("score_now_is_minus_inf", Iz, Iz, Bz), fr("score_now", Iz, Iz, Rz)
+                st = {"y_prev": stn.ST((ROWS, N, PW), lambda r, n, k: Yh(z(r), z(n), z(k)), "long"), "y_prev_lens": stn.ST((N, PW), lambda n, k: Lh(z(n), z(k)), "long"),
+                      "log_probs_prev": stn.ST((N, PW), lambda n, k: ct.NegGuarded(NFh(z(n), z(k)), Vh(z(n), z(k))), "float"), "prev_width": PW, "prev": Tok("carried")}
+                for nm in names:
+                    f.locals[nm] = st[nm]
+                if I.ex.choose(2) == 0:
+                    I.ex.assume(z3.And(0 <= t, t < MI))
+                    I.ex.assume(inv_all(st, t))
+                    cur = {"t": t, "pw": PW, "st": st}
+                    g["cur"] = cur
+                    I.ex.ghost["skolem_hooks"] = [lambda ii: [inv_inst(st, t, a, b, b, z3.IntVal(0)) for a in ii for b in ii if a is not b]]
+                    I.ex.instance(inv_inst(st, t, N0, K0, K1, R0))
+                    I.assign(s.target, t, f)
+                    I.exec_block(s.body, f)
+                    st1 = {nm: ip.local(f, nm) for nm in names}
+                    if "adv" not in cur:
+                        raise ip.Unsupported("the step did not call beam_search_advance")
+                    adv, lsf = cur["adv"], cur["ls"]
+                    S0, S1 = adv["S"](N0, K0), adv["S"](N0, K1)
+                    # ghost assignment: the genealogy of step t is what this step did
+                    ghost = lambda n, k, sv, v: z3.And(SRC(t, n, k) == adv["S"](n, k), TOK(t, n, k) == adv["W"](n, k), LSM(t, n, sv, v) == lsf(n, sv, v))
+                    I.ex.assume(z3.ForAll([n_, k_, k2_, r_], ghost(n_, k_, k2_, r_)))
+                    for y_ in (ghost(N0, K0, S0, adv["W"](N0, K0)), ghost(N0, K1, S1, adv["W"](N0, K1)), adv["slot"](N0, K0), adv["slot"](N0, K1), adv["cell"](N0, K0, R0), adv["cell"](N0, K1, R0),
+                               adv["cell"](N0, K0, DIFF(t, N0, S0, S1)), adv["cell"](N0, K1, DIFF(t, N0, S0, S1)), adv["cell"](N0, K0, t), adv["cell"](N0, K1, t),
+                               adv["distinct"](N0, K0, K1), adv["filler"](N0, K0), adv["filler"](N0, K1),
+                               inv_inst(st, t, N0, S0, S1, R0), inv_inst(st, t, N0, S1, S0, R0), inv_inst(st, t, N0, S0, S1, DIFF(t, N0, S0, S1)), inv_inst(st, t, N0, S1, S0, DIFF(t, N0, S0, S1)),
+                               rec_alive(t, N0, K0), rec_alive(t, N0, K1), rec_ch(t, N0, K0), rec_path(t, N0, K0, R0), rec_path(t, N0, K0, DIFF(t, N0, S0, S1)), rec_path(t, N0, K1, DIFF(t, N0, S0, S1)),
+                               rec_path(t, N0, K0, t), rec_path(t, N0, K1, t), rec_path(t, N0, K0, DIFF(t + 1, N0, K0, K1)), rec_path(t, N0, K1, DIFF(t + 1, N0, K0, K1)), rec_diff(t, N0, K0, K1)):
+                        I.ex.instance(y_)
+                    for lbl, gl in inv_parts(st1, t + 1):
+                        I.ex.oblige("search.step." + lbl, gl)
+                    raise PathAbort()
+                g["cur"] = None
+                I.ex.assume(MI >= 0)
+                I.ex.assume(inv_all(st, z3.IntVal(0) + MI))
+                I.ex.instance(inv_inst(st, z3.IntVal(0) + MI, N0, K0, K1, R0))
+                g["final"] = st
+
+        I.loops[("forward", 0)] = Steps("search", None, None, None, {})
+        lm = ip.SObj(LMM.ExtractableSequentialLanguageModel, {"vocab_size": V}, "lm")
+        dev = stn.ST((0,), lambda i: z3.RealVal(0), "float")
+        obj = ip.SObj(D.BeamSearch, {"lm": lm, "width": W, "eos": None, "finish_all_paths": False, "pad_value": PADV, "device_buffer": dev}, "search")
+        return I.call(I.getattr(obj, "forward"), [None, N, MI], {})
+
+    def post(p):
+        if not api.returns(p) or not isinstance(p.value, tuple) or len(p.value) != 3 or "final" not in p.ghost:
+            return False
+        y, lens, lp = p.value
+        t = z3.IntVal(0) + MI
+        nf = Bq(ct.ng_split(lp.elem(N0, K0))[0])
+        val = z(ct.ng_split(lp.elem(N0, K0))[1])
+        slot = z3.And(0 <= K0, K0 < W)
+        al = z3.And(K0 < pw_of(t), ALIVE(t, N0, K0))   # slots added by the final padding are not alive
+        al1 = z3.And(K1 < pw_of(t), ALIVE(t, N0, K1))
+        return [("result_shapes", z3.And(z3.BoolVal(len(y.shape) == 3 and len(lens.shape) == 2 and len(lp.shape) == 2), z(y.shape[1]) == N, z(y.shape[2]) == W, z(lens.shape[0]) == N, z(lens.shape[1]) == W, z(lp.shape[0]) == N, z(lp.shape[1]) == W)),
+                ("score_is_minus_inf_exactly_when_the_slot_holds_no_path", z3.Implies(slot, nf == z3.Not(al))),
+                ("returned_path_has_one_token_per_step_and_the_chained_score", z3.Implies(z3.And(slot, al), z3.And(z(lens.elem(N0, K0)) == t, val == CH(t, N0, K0), z3.Implies(z3.And(0 <= R0, R0 < t), z(y.elem(R0, N0, K0)) == PATH(t, N0, K0, R0))))),
+                ("returned_paths_are_pairwise_different", z3.Implies(z3.And(slot, 0 <= K1, K1 < W, K0 != K1, al, al1), z3.And(0 <= DIFF(t, N0, K0, K1), DIFF(t, N0, K0, K1) < t, PATH(t, N0, K0, DIFF(t, N0, K0, K1)) != PATH(t, N0, K1, DIFF(t, N0, K0, K1)))))]
+
+    defs = [z3.ForAll([n_], base_def(n_)), z3.ForAll([t_, n_, k_], rec_alive(t_, n_, k_)), z3.ForAll([t_, n_, k_], rec_ch(t_, n_, k_)), z3.ForAll([t_, n_, k_, r_], rec_path(t_, n_, k_, r_)), z3.ForAll([t_, n_, k_, k2_], rec_diff(t_, n_, k_, k2_))]
+    pre = [N >= 1, W >= 1, V >= 1, MI >= 0, 0 <= N0, N0 < N] + defs
+    return VC("C04.P.search_loop", "BeamSearch.forward[eos unset; symbolic batch size, width, vocabulary, step limit; any language model]", M, "BeamSearch.forward", thunk, pre=pre, posts=[("beam_after_the_last_step", post)],
+              inputs={"N": N, "width": W, "V": V, "max_iters": MI}, timeout_ms=60000, max_paths=64, witness_hints=[N == 1, W == 2, V == 2, MI == 2],
+              assumptions=["callee contracts: beam_search_advance = the postcondition of C04.P.advance_step (lengths given, scores possibly -inf); the language model's methods return opaque states and uninterpreted scores; log_softmax an uninterpreted element function (finite values)",
+                           "ghost genealogy (source, token, step_score per step) recorded by ghost assignment in the step; alive / chained / path / differ defined from it by recursion on the step (conservative)",
+                           "end-of-sequence symbol unset (no early stop, no finished paths) and a batch size given: the eos logic is the bounded driver's; the induction over the steps is the loop rule (init / step obligations)",
+                           "float arithmetic treated as real arithmetic; -inf as a flag"])
+
+
 def p_vcs(ctx):
     return [adv_p_vc(), adv_p_vc(with_lens=True)]
+
+
+def loop_p_vcs(ctx):
+    return [search_loop_p_vc()]
 
 
 def vcs(ctx):
